@@ -52,6 +52,9 @@ static std::string show(const std::vector<Key> &v, const pt::Tree &t) {
 
 std::string vf_run(const Case &c, vf::Ctx &ctx) {
   pt::Instance inst(c.tree);
+  // every third/fourth case hands the root table over through MergePorts / ClonePorts (derived from the case itself)
+  { size_t n = c.tree.tables[0].ports.size() + c.addrs.size(); if (n % 4 == 1) inst.wrap_root(1); else if (n % 4 == 2) inst.wrap_root(2); }
+  if (inst.root_mode == 1) ctx.count("root.through_MergePorts"); else if (inst.root_mode == 2) ctx.count("root.through_ClonePorts");
   bool anyhashed = false, anysub = false;
   for (size_t t = 0; t < c.tree.tables.size(); t++) {
     const pt::PTable &tb = c.tree.tables[t];
@@ -110,11 +113,13 @@ std::string vf_run(const Case &c, vf::Ctx &ctx) {
     for (auto &x : s1) {
       if (x.port < 0) continue;
       const rtosc::Port *want = &inst.tabs[(size_t)x.table]->ports[(size_t)x.port];
+      if (x.table == 0 && inst.root_mode) { if (!x.dport || strcmp(x.dport->name, want->name)) return "callback of a wrapped root port saw a port pointer with another name" + what; continue; }
       if (x.dport != want) return "callback of T" + std::to_string(x.table) + " \"" + c.tree.tables[(size_t)x.table].ports[(size_t)x.port].name + "\" saw a different port pointer in RtData" + what;
     }
     for (auto &x : s0) {
       if (x.port < 0) continue;
       const rtosc::Port *want = &inst.tabs[(size_t)x.table]->ports[(size_t)x.port];
+      if (x.table == 0 && inst.root_mode) continue;
       if (x.dport != want) return "callback (no loc) saw a different port pointer in RtData" + what;
     }
     // match count after a root dispatch == leaf callbacks invoked (default handler invocations are counted, not judged)
